@@ -68,7 +68,42 @@ def run(F, rep):
                       'so two different variable pairs can share a key and the second query returns the first one\'s cached answer' % (r['n'], bits, len(srcs), sorted(srcs), bits),
                       'key wide enough')
     if n_k < 1:
-        raise AnalysisBroken('no keyed access to a memo map found in AnalyserModel::areEquivalentVariables')
+        rep.ok('C18.K1', 'no pair->verdict memo', f.where(), 'no map<key, bool> member is accessed by AnalyserModel::areEquivalentVariables (see C18.S1 for what it may return)')
+
+    rep.rule('C18.S1', 'every verdict AnalyserModel::areEquivalentVariables returns is either the result of the search (libcellml::areEquivalentVariables) for exactly these two variables or a bool stored earlier for exactly this pair: '
+                       'a verdict computed from other cached data (e.g. comparing two cached representatives) answers "not equivalent" without having searched')
+    n_s = 0
+    for r in f.walk():
+        if r.get('k') != 'Return' or not r.get('c'):
+            continue
+        e = r['c'][0]
+        while e.get('k') in ('Construct', 'Cast', 'Paren') and len(e.get('c', [])) == 1:
+            e = e['c'][0]
+        n_s += 1
+        how = None
+        if e.get('k') == 'Bool':
+            how = 'literal (trivial case)'
+        elif e.get('k') == 'Call' and not e.get('opc') and (e.get('callee') or '') == 'libcellml::areEquivalentVariables':
+            how = 'the search itself'
+        elif e.get('k') == 'Ref' and e.get('dk') == 'local':
+            inits = [v['c'][0] for v in f.walk() if v.get('k') == 'Var' and v.get('d') == e['d'] and v.get('c')]
+            if inits and all(any(x.get('k') == 'Call' and (x.get('callee') or '') == 'libcellml::areEquivalentVariables' for x in walk(i)) for i in inits):
+                how = 'result of the search'
+        elif e.get('k') == 'Member' and e.get('n') == 'second':
+            # it->second of an iterator obtained from find(key) on a map<pair/tuple/wide key, bool>
+            base = [x for x in walk(e) if x.get('k') == 'Ref' and x.get('dk') == 'local']
+            for b in base:
+                for v in f.walk():
+                    if v.get('k') == 'Var' and v.get('d') == b['d'] and v.get('c'):
+                        for c_ in walk(v['c'][0]):
+                            if c_.get('k') == 'Call' and c_.get('fn') == 'find' and c_.get('mc'):
+                                m_ = receiver(c_)
+                                fld = next((x for x in rec['fields'] if m_ is not None and x['n'] == m_.get('n')), None)
+                                if fld is not None and re.match(r'std::(?:unordered_)?map<.+, bool', fld['t']):
+                                    how = 'verdict stored for this key (%s)' % fld['n']
+        rep.check(how is not None, 'C18.S1', 'return %s' % render(e)[:40], f.where(r), 'areEquivalentVariables returns `%s`, which is neither the search result nor a stored verdict for this pair' % render(e)[:60], how)
+    if n_s < 1:
+        raise AnalysisBroken('AnalyserModel::areEquivalentVariables has no return')
 
     rep.rule('C18.N1', 'areEquivalentVariables (AnalyserModel and utility) dereference their variable parameters only under a non-null test')
     util = F.fn1('libcellml::areEquivalentVariables')
@@ -203,3 +238,14 @@ def run(F, rep):
                           v['n'], cont, bad[1].get('l') if bad else '?', render(bad[0])[:40] if bad else '?', bad[0].get('l') if bad else '?'), 'no modification between obtaining and using the iterator')
     if n_it < 2:
         raise AnalysisBroken('iterators into mEquivalentVariables: %d found, 3 confirmed' % n_it)
+
+    rep.rule('C18.Q1', 'the equivalence queries of Variable are pure: no const member function of Variable/VariableImpl writes a data member (a per-variable memo of a property of the whole connection graph is stale as soon as two OTHER variables are connected or disconnected)')
+    import fields
+    n_q = 0
+    for g in F.funcs.values():
+        if g.cls in ('libcellml::Variable', 'libcellml::Variable::VariableImpl') and g.j.get('const'):
+            n_q += 1
+            w = fields.this_writes(F, g)
+            rep.check(not w, 'C18.Q1', g.short + '/%d' % len(g.params), g.where(), '%s is const but writes %s' % (g.short, sorted(w)), 'writes nothing')
+    if n_q < 15:
+        raise AnalysisBroken('C18.Q1: only %d const member functions of Variable found' % n_q)
